@@ -607,7 +607,8 @@ impl ExecutableContent for SendParameters {
             return false;
         }
 
-        let target_guard = target.lock().unwrap();
+        // A copy of the value: the lock is not kept, the other attributes may evaluate to the same data element.
+        let target_guard = target.lock().unwrap().clone();
         if delay_ms > 0 && target_guard.to_string().eq(SCXML_TARGET_INTERNAL) {
             // Can't send via internal queue
             error!("Send: illegal delay for target {}", target_guard);
